@@ -19,6 +19,9 @@
 (*                        properties the action was given (its own copy:    *)
 (*                        no effect on anything the model can see)         *)
 (*   <<"fresh", f>>       return the object f instead of the bindings      *)
+(*   <<"nullif", k, v>>   return null when binding k has the (scalar)      *)
+(*                        value v, otherwise go on: a guard that rejects   *)
+(*                        one candidate of a pattern and accepts another   *)
 (*   <<"retnull">>        return null (a guard rejects; an action yields   *)
 (*                        empty bindings)                                  *)
 (*   <<"throw">>          fail by throwing                                 *)
@@ -55,6 +58,9 @@ RunOps(ops, bs, em) ==
       [] o[1] = "mutprops"  -> RunOps(r, bs, em)
       [] o[1] = "fresh"     -> [oc |-> "ok", cls |-> "", bs |-> o[2], em |-> em, pem |-> em]
       [] o[1] = "retnull"   -> [oc |-> "null", cls |-> "", bs |-> EmptyFn, em |-> em, pem |-> em]
+      [] o[1] = "nullif"    -> IF o[2] \in DOMAIN bs /\ bs[o[2]] = o[3]
+                               THEN [oc |-> "null", cls |-> "", bs |-> EmptyFn, em |-> em, pem |-> em]
+                               ELSE RunOps(r, bs, em)
       [] o[1] = "throw"     -> [oc |-> "fail", cls |-> "thrown", bs |-> bs, em |-> <<>>, pem |-> em]
       [] o[1] = "loop"      -> [oc |-> "fail", cls |-> "timeout", bs |-> bs, em |-> <<>>, pem |-> em]
       [] o[1] = "retscalar" -> [oc |-> "fail", cls |-> "badreturn", bs |-> bs, em |-> <<>>, pem |-> em]
